@@ -553,6 +553,10 @@ def oracle_T(T, case, r):
         same_exact = len(ov) == len(lv) and all(exactly_same(e, a, b) for a, b in zip(ov, lv))
         if not same_exact:
             changed.add(cls)
+        elif cls in ("cross_type", "int_missing") and any(a not in (None, "N") and a[0] in "il" and tok_missing(a) for a in ov):
+            # an integer -1 held on an element of another C type: the encoder takes it for the number -1, the text form writes
+            # MSNG - the recorded weakness of that class, although "missing" compares equal to "missing"
+            changed.add(cls)
         elif any(a[0] != b[0] for a, b in zip(ov, lv) if a != "N" and b != "N"):
             changed.add("retyped")        # the same number, but now held in the element's own C type
         # the property: same defaults as raw values under the element's encoding
